@@ -126,6 +126,96 @@ theorem primary_corruption_detected_16 (p p' : Primary) (a b : UInt8)
     simp only [List.cons.injEq, and_true] at hok hb
     exact ⟨hok.1.trans hb.1.symm, hok.2.trans hb.2.symm⟩
 
+
+/-- **C05 (block content, CRC-32C, primary).** Window of ≤ 4 bytes. -/
+theorem primary_corruption_detected_32 (p p' : Primary) (a b c d : UInt8)
+    (hc : p.crc = .v32 a b c d) (hc' : p'.crc = .v32 a b c d) (hok : p.checkCrc = true)
+    (pre w₁ w₂ suf : Bytes) (hl : w₁.length = w₂.length) (hn : w₁.length ≤ 4) (hne : w₁ ≠ w₂)
+    (he : encPrimary (C04.Primary.zeroed p) = pre ++ w₁ ++ suf)
+    (he' : encPrimary (C04.Primary.zeroed p') = pre ++ w₂ ++ suf) :
+    p'.checkCrc = false := by
+  have h1 := (C04.primary_crc_is_crc_of_zeroed p).2.1 (by simp [hc, CrcVal.toCode])
+  have h1' := (C04.primary_crc_is_crc_of_zeroed p').2.1 (by simp [hc', CrcVal.toCode])
+  simp only [Primary.updateCrc] at h1 h1'
+  simp only [Primary.checkCrc, checkCrcVal, hc, hc'] at hok ⊢
+  rw [h1, he] at hok
+  rw [h1', he']
+  have hw := crc32c_window pre w₁ w₂ suf hl hn hne
+  simp only [be32, CrcVal.bytes, beq_iff_eq, Option.some.injEq] at hok
+  cases hb : (be32 (crc32c (pre ++ w₂ ++ suf))).bytes == (CrcVal.v32 a b c d).bytes
+  · rfl
+  · exfalso
+    simp only [be32, CrcVal.bytes, beq_iff_eq, Option.some.injEq] at hb
+    apply hw
+    apply be32_inj
+    simp only [be32, CrcVal.v32.injEq]
+    simp only [List.cons.injEq, and_true] at hok hb
+    exact ⟨hok.1.trans hb.1.symm, hok.2.1.trans hb.2.1.symm, hok.2.2.1.trans hb.2.2.1.symm, hok.2.2.2.trans hb.2.2.2.symm⟩
+
+/-- **C05 (block content, CRC-16, canonical block).** -/
+theorem canon_corruption_detected_16 (p p' : Canon) (a b : UInt8)
+    (hc : p.crc = .v16 a b) (hc' : p'.crc = .v16 a b) (hok : p.checkCrc = true)
+    (pre w₁ w₂ suf : Bytes) (hl : w₁.length = w₂.length) (hn : w₁.length ≤ 2) (hne : w₁ ≠ w₂)
+    (he : encCanon (C04.Canon.zeroed p) = pre ++ w₁ ++ suf)
+    (he' : encCanon (C04.Canon.zeroed p') = pre ++ w₂ ++ suf) :
+    p'.checkCrc = false := by
+  have h1 := (C04.canon_crc_is_crc_of_zeroed p).1 (by simp [hc, CrcVal.toCode])
+  have h1' := (C04.canon_crc_is_crc_of_zeroed p').1 (by simp [hc', CrcVal.toCode])
+  simp only [Canon.updateCrc] at h1 h1'
+  simp only [Canon.checkCrc, checkCrcVal, hc, hc'] at hok ⊢
+  rw [h1, he] at hok
+  rw [h1', he']
+  have hw := crc16_window pre w₁ w₂ suf hl hn hne
+  simp only [be16, CrcVal.bytes, beq_iff_eq, Option.some.injEq] at hok
+  cases hb : (be16 (crc16 (pre ++ w₂ ++ suf))).bytes == (CrcVal.v16 a b).bytes
+  · rfl
+  · exfalso
+    simp only [be16, CrcVal.bytes, beq_iff_eq, Option.some.injEq] at hb
+    apply hw
+    apply be16_inj
+    simp only [be16, CrcVal.v16.injEq]
+    simp only [List.cons.injEq, and_true] at hok hb
+    exact ⟨hok.1.trans hb.1.symm, hok.2.trans hb.2.symm⟩
+
+/-- **C05 (block content, CRC-32C, canonical block).** -/
+theorem canon_corruption_detected_32 (p p' : Canon) (a b c d : UInt8)
+    (hc : p.crc = .v32 a b c d) (hc' : p'.crc = .v32 a b c d) (hok : p.checkCrc = true)
+    (pre w₁ w₂ suf : Bytes) (hl : w₁.length = w₂.length) (hn : w₁.length ≤ 4) (hne : w₁ ≠ w₂)
+    (he : encCanon (C04.Canon.zeroed p) = pre ++ w₁ ++ suf)
+    (he' : encCanon (C04.Canon.zeroed p') = pre ++ w₂ ++ suf) :
+    p'.checkCrc = false := by
+  have h1 := (C04.canon_crc_is_crc_of_zeroed p).2.1 (by simp [hc, CrcVal.toCode])
+  have h1' := (C04.canon_crc_is_crc_of_zeroed p').2.1 (by simp [hc', CrcVal.toCode])
+  simp only [Canon.updateCrc] at h1 h1'
+  simp only [Canon.checkCrc, checkCrcVal, hc, hc'] at hok ⊢
+  rw [h1, he] at hok
+  rw [h1', he']
+  have hw := crc32c_window pre w₁ w₂ suf hl hn hne
+  simp only [be32, CrcVal.bytes, beq_iff_eq, Option.some.injEq] at hok
+  cases hb : (be32 (crc32c (pre ++ w₂ ++ suf))).bytes == (CrcVal.v32 a b c d).bytes
+  · rfl
+  · exfalso
+    simp only [be32, CrcVal.bytes, beq_iff_eq, Option.some.injEq] at hb
+    apply hw
+    apply be32_inj
+    simp only [be32, CrcVal.v32.injEq]
+    simp only [List.cons.injEq, and_true] at hok hb
+    exact ⟨hok.1.trans hb.1.symm, hok.2.1.trans hb.2.1.symm, hok.2.2.1.trans hb.2.2.1.symm, hok.2.2.2.trans hb.2.2.2.symm⟩
+
+/-- **C05 (bundle level).** `crc_valid` demands every block: one failing block — primary or any
+    canonical block, wherever it stands — makes the whole bundle fail. -/
+theorem bundle_fails_if_block_fails (b : Bundle)
+    (h : b.primary.checkCrc = false ∨ ∃ c ∈ b.canon, c.checkCrc = false) : b.crcValid = false := by
+  unfold Bundle.crcValid
+  rcases h with h | ⟨c, hc, hf⟩
+  · simp [h]
+  · have : b.canon.all Canon.checkCrc = false := by
+      apply Bool.eq_false_iff.mpr
+      intro hall
+      have := List.all_eq_true.mp hall c hc
+      rw [hf] at this; exact Bool.noConfusion this
+    simp [this]
+
 /-- **C05 (CRC value change).** A block that verifies stops verifying when only its stored CRC
     value is changed (same encoding otherwise). -/
 theorem crc_value_change_detected (stored stored' computed : CrcVal)
